@@ -236,7 +236,7 @@ def _topokeep(ctx, cfg, prog, mod):
     for owner, (ok, d) in sorted(keep.get('global_topology', {}).items()):
         ctx.ob('TOPOKEEP', 'replace|' + owner, cfg, ok, 'whole-receiver replacement in %s: %s' % (owner.rsplit('::', 1)[-1], d))
     ctx.floor('global_topology writers found (positive control: the setter is seen writing)', 2, writers, cfg)
-    ctx.floor('whole-receiver replacement sites', 2, len(sites), cfg)
+    ctx.floor('whole-receiver replacement sites', 1, len(sites), cfg)
 
 
 VALIDATE_CFG = 'validate_configuration'
